@@ -19,7 +19,7 @@ RDV = "src/wormhole/_rendezvous.py"
 
 
 def r1(tree, rep, tier):
-    sums = a3common.explorations(tree, tier, rep.seed)
+    sums = a3common.explorations(tree, tier, rep.seed, rep)
     a3common.fill_extra(rep, sums)
     for envname, s in sums.items():
         bad = [v for v in s.viol if v["kind"] in ("NoTransition", "Assert")]
@@ -41,8 +41,8 @@ def r1(tree, rep, tier):
                           detail="call stack: " + " > ".join(v["stack"]), trace=v["path"])
         rep.sample({"rule": "C14.R1", "environment": envname, "states": s.nstates, "transitions": s.ntrans,
                     "events": sorted(s.events_used)[:30]})
-    q = sums["quick"]
-    if q.unknown_handlers:
+    q = sums.get("quick")
+    if q is not None and q.unknown_handlers:
         raise AnalysisError("RendezvousConnector has response handlers the environment does not model: %s"
                             % q.unknown_handlers)
 
